@@ -790,7 +790,7 @@ func (r *reader) hb() []byte {
 func (r *reader) h() string { return string(r.hb()) }
 
 func (r *reader) val(depth int) Val {
-	if depth > 200 {
+	if depth > 5000 { // values nest as deep as the parse recursed (deep-recovery family: several hundred levels)
 		r.fail(errors.New("value nesting too deep"))
 		return Val{}
 	}
